@@ -700,7 +700,7 @@ fn write_evidence(prop: Prop, tier: &str, seed: u64, agg: &Agg, wall: f64, corpu
         ("by_kind".into(), J::O(agg.by_kind.iter().map(|(k, v)| (k.clone(), J::N(*v as f64))).collect())),
         ("by_capacity".into(), J::O(agg.by_cap.iter().map(|(k, v)| (format!("N={k}"), J::N(*v as f64))).collect())),
         ("campaigns".into(), J::A(notes.iter().map(|n| J::S(n.clone())).collect())),
-        ("profile".into(), J::S(if cfg!(debug_assertions) { "dev (debug assertions on)".into() } else { "release (debug assertions off)".to_string() })),
+        ("profile".into(), J::S(std::env::var("VERIF_PROFILE_NOTE").unwrap_or_else(|_| if cfg!(debug_assertions) { "dev (debug assertions on), micromap feature std off".into() } else { "release (debug assertions off), micromap feature std off".to_string() }))),
         ("fault_positions_skipped_by_stride".into(), J::N(agg.fault_positions_skipped as f64)),
         ("known_findings_hit".into(), J::N(agg.known_hits.len() as f64)),
     ];
